@@ -12,6 +12,55 @@ EVCLS = {n: type(n, (Event,), {}) for n in NAMES}
 NCOMP = 5
 
 
+def build_classes(case, log):
+    """dynamic class hierarchy from the case description; returns the most derived class"""
+    root = Component if case['root'] == 'Component' else BaseComponent
+    classes = []
+    for ci, kd in enumerate(case['classes']):
+        ns = {}
+        for d in kd['defs']:
+            def mk(fid):
+                def f(self, *args, **kwargs):
+                    log.append(fid)
+                return f
+            f = mk(d['fid'])
+            f.__name__ = d['attr']
+            if d['kind'] == 'explicit':
+                f = handler(*d['names'], override=d['override'])(f)
+            elif d['kind'] == 'nonhandler':
+                f = handler(False)(f)
+            ns[d['attr']] = f          # 'implicit' / 'plain': left to the metaclass (or not a handler at all)
+        bases = tuple(classes[b] for b in kd['bases']) or (root,)
+        classes.append(type('K%d' % ci, bases, ns))
+    return classes
+
+
+def class_mro_term(case, classes):
+    """the MRO of the most derived class restricted to the generated classes, as a Coq (list klass)"""
+    idx = {c: i for i, c in enumerate(classes)}
+    implicit_ok = case['root'] == 'Component'
+    ks = []
+    for c in classes[-1].__mro__:
+        if c not in idx:
+            continue
+        ds = []
+        for d in case['classes'][idx[c]]['defs']:
+            if d['kind'] == 'explicit':
+                hd, ov, names = True, d['override'], d['names']
+            elif d['kind'] == 'implicit' and implicit_ok and not d['attr'].startswith('_'):
+                hd, ov, names = True, False, [d['attr']]
+            else:
+                hd, ov, names = False, False, []
+            ds.append('{| m_attr := %s; m_fid := %s; m_handler := %s; m_override := %s; m_names := [%s]%%nat |}' % (
+                natlit(ATTRS.index(d['attr'])), natlit(d['fid']), str(hd).lower(), str(ov).lower(),
+                ';'.join(str(ATTRS.index(n)) for n in names)))
+        ks.append('[%s]' % '; '.join(ds))
+    return '[%s]' % '; '.join(ks)
+
+
+ATTRS = NAMES + ['_p', 'other']
+
+
 def chan_term(ch):
     if ch == '*':
         return 'CStar'
@@ -88,7 +137,7 @@ class World:
 class C01(Prop):
     id = 'C01'
     props_file = 'Props/C01.v'
-    imports = ['Model.Handlers', 'Model.HandlersObs']
+    imports = ['Model.Handlers', 'Model.HandlersObs', 'Model.ClassHandlers', 'Model.ClassHandlersObs']
     quick_n = 500
     thorough_n = 6000
     rule = ('random forests over a pool of 5 BaseComponents (channels *, a, b), 8 handler declarations (named / catch-all / global, '
@@ -102,9 +151,35 @@ class C01(Prop):
 
     def generate(self, rng, n, tier):
         cases = []
-        for _ in range(n):
-            cases.append(self.gen_one(rng))
+        for i in range(n):
+            cases.append(self.gen_classes(rng) if i % 4 == 3 else self.gen_one(rng))
         return cases
+
+    def gen_classes(self, rng):
+        root = rng.choice(['BaseComponent', 'Component'])
+        ncls = rng.randint(1, 5)
+        classes, fid = [], 0
+        for ci in range(ncls):
+            if ci == 0:
+                bases = []
+            elif ci >= 2 and rng.random() < 0.15 and ci - 1 != 0:
+                bases = [ci - 1, rng.randrange(0, ci - 1)] if rng.random() < 0.5 else [ci - 1]
+            else:
+                bases = [ci - 1]
+            # a mixin base must not be an ancestor of the other base (would make the MRO inconsistent)
+            if len(bases) == 2:
+                bases = [ci - 1]
+            defs = []
+            for attr in rng.sample(ATTRS, rng.randint(0, 3)):
+                kind = rng.choice(['explicit', 'explicit', 'implicit', 'nonhandler'])
+                d = {'attr': attr, 'fid': fid, 'kind': kind, 'names': [], 'override': False}
+                if kind == 'explicit':
+                    d['names'] = rng.sample(NAMES, rng.choice([1, 1, 2]))
+                    d['override'] = rng.random() < 0.35
+                defs.append(d)
+                fid += 1
+            classes.append({'bases': bases, 'defs': defs})
+        return {'k': 'cls', 'root': root, 'classes': classes}
 
     def gen_one(self, rng):
         comps = [rng.choice(CHANS) for _ in range(NCOMP)]
@@ -215,6 +290,18 @@ class C01(Prop):
 
     # ---- implementation driver
     def impl(self, case):
+        if case.get('k') == 'cls':
+            log = []
+            classes = build_classes(case, log)
+            inst = classes[-1]()
+            out = []
+            for n in NAMES:
+                del log[:]
+                inst.fire(EVCLS[n](0))
+                for _ in range(4):
+                    inst.flush()
+                out.append(sorted(log))
+            return {'per_event': out}
         w = World(case)
         hs = {h['hid']: h for h in case['handlers']}
         fired = {}
@@ -270,6 +357,9 @@ class C01(Prop):
 
     # ---- model
     def model_term(self, case):
+        if case.get('k') == 'cls':
+            classes = build_classes(case, [])
+            return 'obs_classes %s [0;1;2]%%nat' % class_mro_term(case, classes)
         hs = {h['hid']: h for h in case['handlers']}
         cs = '[%s]' % '; '.join('(%s, %s)' % (natlit(i), chan_term(ch)) for i, ch in enumerate(case['comps']))
         ops = []
@@ -293,12 +383,16 @@ class C01(Prop):
     def obs_for_model(self, case, obs):
         if isinstance(obs, dict) and '__crash__' in obs:
             return [-999]
+        if case.get('k') == 'cls':
+            return obs['per_event']
         return [[[e, hs] for e, hs in obs['deliveries']], obs['status']]
 
     # ---- oracle: independent shadow computation of "the matching handlers in the live tree at dispatch time"
     def oracle(self, case, obs):
         if isinstance(obs, dict) and '__crash__' in obs:
             return None
+        if case.get('k') == 'cls':
+            return self.oracle_classes(case, obs)
         if obs['graph']:
             return 'component graph inconsistent: ' + obs['graph']
         hs = {h['hid']: h for h in case['handlers']}
@@ -366,7 +460,45 @@ class C01(Prop):
                 return 'event %d was delivered although never dispatched in the history' % e
         return None
 
+    def oracle_classes(self, case, obs):
+        """documented semantics of @handler / override / Component, computed from the description alone:
+        walk the linearised ancestry of the most derived class; a handler definition is in force unless a more
+        derived class redefines the attribute as a handler with override=True"""
+        cl = case['classes']
+        # linearisation: single inheritance chains only (the generator produces chains)
+        order, i = [], len(cl) - 1
+        while True:
+            order.append(i)
+            if not cl[i]['bases']:
+                break
+            i = cl[i]['bases'][0]
+        implicit_ok = case['root'] == 'Component'
+        exp = {n: [] for n in NAMES}
+        overridden = set()
+        for ci in order:
+            for d in cl[ci]['defs']:
+                if d['kind'] == 'explicit':
+                    names, ov = d['names'], d['override']
+                elif d['kind'] == 'implicit' and implicit_ok and not d['attr'].startswith('_'):
+                    names, ov = [d['attr']], False
+                else:
+                    continue
+                if d['attr'] not in overridden:
+                    for n in names:
+                        if n in exp:
+                            exp[n].append(d['fid'])
+            for d in cl[ci]['defs']:
+                if d['kind'] == 'explicit' and d['override']:
+                    overridden.add(d['attr'])
+        want = [sorted(exp[n]) for n in NAMES]
+        if obs['per_event'] != want:
+            return 'class hierarchy: handlers invoked per event %r, handlers in force by the documented rule %r' % (obs['per_event'], want)
+        return None
+
     def nontrivial(self, case, obs):
+        if case.get('k') == 'cls':
+            return len(case['classes']) >= 3
+
         ops = [o['op'] for o in case['ops']]
         return any(k in ops for k in ('register', 'detach')) and ops.count('fire') >= 2
 
